@@ -787,6 +787,28 @@ func init() {
 						g.Add("r-deep", Ls(I(1), I(sk), nonNil(sk), Ls(items...), rest()))
 					}
 				}
+				// WIDE unknown containers (the nesting budget is per level, not per element): lists and sets of
+				// 63..200 structs / lists / maps, maps with that many container values
+				for _, n := range []int{63, 64, 65, 100, 200} {
+					for k, et := range []int{12, 15, 13, 14} {
+						var elem V
+						switch et {
+						case 12:
+							elem = Ls(I(12), Ls(I(3), I(1), Ls(I(3), I(7))))
+						case 13:
+							elem = Ls(I(13), I(8), I(11), Ls(Ls(I(8), I(1)), Ls(I(11), c.str(2))))
+						default:
+							elem = Ls(I(et), I(6), Ls(I(6), I(9)))
+						}
+						wide := []V{I(15 - k%2), I(et)}
+						for i := 0; i < n; i++ {
+							wide = append(wide, elem)
+						}
+						kn := c.known(sk, false)
+						items := append([]V{kn[0], Ls(I(1), I(15-k%2), I(40+k), Ls(wide...))}, kn[1:]...)
+						g.Add("r-wide", Ls(I(1), I(sk), nonNil(sk), Ls(items...), rest()))
+					}
+				}
 				// type bytes that are no Thrift type (incl. >= 0x80: sign-extended in the switch key),
 				// negative ids, STOP-typed "fields" cannot be expressed as items: see the raw stream
 				for _, t := range []int{1, 5, 7, 9, 16, 0x7f, 0x80, 0x8b, 0x8d, 0xff} {
